@@ -132,21 +132,19 @@ def remap_pin_grid_rule(ctx, rep, rule="layout"):
         return
     body = se.body
     fi = for_info(ctx, se)
-    if len(fi) != 2:
-        rep.violation(rule, fn, "shape", "expected an outer and an inner for-loop, found %d" % len(fi), body.loc())
+    if len(fi) not in (1, 2):
+        rep.violation(rule, fn, "shape", "expected the radix loop (and optionally an inner gap-closing loop), found %d loops" % len(fi), body.loc())
         return
-    # outer: enumerate(rev(1..=10)); inner: 0..copy_size
     outer = inner = None
     for head, (elem, src, lp) in fi.items():
         if util.is_call(src) and src[1].endswith("::enumerate"):
             outer = (head, elem, src)
         elif src is not None and src[0] == "agg" and src[2] == "std::ops::Range":
             inner = (head, elem, src)
-    if not outer or not inner:
+    if not outer or (len(fi) == 2 and not inner):
         rep.violation(rule, fn, "shape", "loops are not `for (k, i) in (1..=10).rev().enumerate()` / `for j in 0..n`", body.loc())
         return
     oh, oelem, osrc = outer
-    ih, ielem, isrc = inner
     rv = strip(osrc[2][0])
     rng_ok = util.is_call(rv) and rv[1].endswith("::rev") and util.is_call(strip(rv[2][0]), "std::ops::RangeInclusive::<Idx>::new")
     if rng_ok:
@@ -154,46 +152,56 @@ def remap_pin_grid_rule(ctx, rep, rule="layout"):
         rng_ok = a[0][:2] == ("int", 1) and a[1][:2] == ("int", 10)
     rep.check(rng_ok, rule, fn, "radices", "radices i = 10, 9, ..., 1 with positions k = 0..9", "outer loop is not over (1..=10).rev().enumerate()", body.loc())
     ost = loop_state(se, oh)
-    ist = loop_state(se, ih)
     seed = remapped = grid = None
     kterm = ("field", oelem, 0)
     iterm = ("field", oelem, 1)
+    arrays = []
     for key, (init, step) in ost.items():
         ph = phi_of(se, oh, key)
         si = strip(init)
         if si == ("param", 1):
             seed = (key, ph, step)
         elif si[0] == "agg" and si[1] == "array" and [x[1] for x in si[4]] == list(range(10)):
-            ss = strip(step)
-            if ss[0] == "phi" and ss[2] == ih:
-                grid = (key, ph, step)
-            else:
-                remapped = (key, ph, step)
-    igrid = None
-    for key, (init, step) in ist.items():
-        if grid and key == grid[0]:
-            igrid = (key, phi_of(se, ih, key), init, step)
-    if not (seed and remapped and grid and igrid):
-        rep.violation(rule, fn, "shape", "state is not (seed, remaining digits [0..9], result [0..9]) with an inner gap-closing loop", body.loc())
+            arrays.append((key, ph, step))
+    for key, ph, step in arrays:
+        ss = strip(step)
+        if ss[0] == "upd" and ss[1] == ph and ss[2][0] == "i" and strip(ss[2][1]) == kterm:
+            remapped = (key, ph, step)
+        else:
+            grid = (key, ph, step)
+    if not (seed and remapped and grid):
+        rep.violation(rule, fn, "shape", "state is not (seed, remaining digits [0..9], result [0..9])", body.loc())
         return
-    env = {seed[1]: "seed", remapped[1]: "R", grid[1]: "G", igrid[1]: "Gi", kterm: "k", iterm: "i", ielem: "j"}
+    env = {seed[1]: "seed", remapped[1]: "R", grid[1]: "G", kterm: "k", iterm: "i"}
     rem = ("rem", S("seed"), S("i"))
-    got = {
-        "seed": N(seed[2], env),
-        "R": N(remapped[2], env),
-        "Gi": N(igrid[3], env),
-        "Gi0": N(igrid[2], env),
-        "n": tuple(N(x, env) for x in isrc[4]),
-    }
-    want = {
-        "seed": ("Div", S("seed"), S("i")),
-        "R": ("upd", S("R"), S("k"), ("idx", S("G"), rem)),
-        "Gi": ("upd", S("Gi"), comm(("add", rem, S("j"))), ("idx", S("Gi"), comm(("add", ("add", rem, S("j")), I(1))))),
-        "Gi0": S("G"),
-        "n": (I(0), ("sub", ("sub", S("i"), rem), I(1))),
-    }
+    got = {"seed": N(seed[2], env), "R": N(remapped[2], env)}
+    want = {"seed": ("Div", S("seed"), S("i")), "R": ("upd", S("R"), S("k"), ("idx", S("G"), rem))}
+    # gap closing: remaining digits r+1..i move one place down (inner loop or copy_within)
+    shift = None
+    gstep = strip(grid[2])
+    if inner is not None and gstep[0] == "phi" and gstep[2] == inner[0]:
+        ih, ielem, isrc = inner
+        ist = loop_state(se, ih)
+        if grid[0] in ist:
+            ginit, gs = ist[grid[0]]
+            env2 = dict(env)
+            env2[phi_of(se, ih, grid[0])] = "Gi"
+            env2[ielem] = "j"
+            ok = (N(gs, env2) == ("upd", S("Gi"), comm(("add", rem, S("j"))), ("idx", S("Gi"), comm(("add", ("add", rem, S("j")), I(1)))))
+                  and N(ginit, env2) == S("G") and tuple(N(x, env2) for x in isrc[4]) == (I(0), ("sub", ("sub", S("i"), rem), I(1))))
+            if ok:
+                shift = ("shift", rem, S("i"))
+    elif gstep[0] == "after" and util.is_call(gstep[1]) and gstep[1][1].endswith("::copy_within") and gstep[2] == 0 and gstep[3] == grid[1]:
+        c = gstep[1]
+        r_ = strip(c[2][1])
+        if r_[0] == "agg" and r_[2] == "std::ops::Range":
+            lo, hi, dst = N(r_[4][0], env), N(r_[4][1], env), N(c[2][2], env)
+            if lo == comm(("add", rem, I(1))) and hi == S("i") and dst == rem:
+                shift = ("shift", rem, S("i"))
+    got["gap"] = shift
+    want["gap"] = ("shift", rem, S("i"))
     good = got == want
-    rep.check(good, rule, fn, "step", "r = seed % i; result[k] = digits[r]; seed /= i; digits[r..] shifted left by one over i - r - 1 places", "layout generation step differs from the factorial-base decoding: %s" % {k: (arith.show(v) if isinstance(v, tuple) and v and isinstance(v[0], str) else str(v)) for k, v in got.items() if got[k] != want[k]}, body.loc())
+    rep.check(good, rule, fn, "step", "r = seed % i; result[k] = digits[r]; seed /= i; digits[r+1..i] moved one place down", "layout generation step differs from the factorial-base decoding: %s" % {k: (arith.show(v) if isinstance(v, tuple) and v and isinstance(v[0], str) else str(v)) for k, v in got.items() if got[k] != want[k]}, body.loc())
     r = strip(se.ret)
     rep.check(r == remapped[1] or r == strip(remapped[1]), rule, fn, "result", "the permuted layout is returned", "the returned array is not the generated layout", body.loc())
 
@@ -208,9 +216,6 @@ def generate_coordinates_rule(ctx, rep, rule="distinct"):
         return
     body = se.body
     fi = for_info(ctx, se)
-    if len(fi) != 3 or len(cfg.back_edges(body)) != 3:
-        rep.violation(rule, fn, "shape", "expected three loops (identity table, rounds, gap closing), found %d" % len(fi), body.loc())
-        return
     size = ("mul", frozenset([("param", 1), ("param", 2)]))
     init_l = rounds = gap = None
     for head, (elem, src, lp) in fi.items():
@@ -223,67 +228,89 @@ def generate_coordinates_rule(ctx, rep, rule="distinct"):
             rounds = (head, elem)
         else:
             gap = (head, elem, src)
-    if not (init_l and rounds and gap):
-        rep.violation(rule, fn, "shape", "loops are not `1..size`, `0..challenge_count` and the gap-closing range", body.loc())
+    if not rounds:
+        rep.violation(rule, fn, "shape", "no loop over the rounds `0..challenge_count`", body.loc())
         return
-    # ---- identity table
-    ist = loop_state(se, init_l[0])
-    tab = [(k, v) for k, v in ist.items() if util.is_call(strip(v[0]), "std::vec::from_elem")]
+    # ---- identity table: zero-filled + table[n] = n loop, or (0..size).collect()
+    table_init = None
     good = False
-    if len(tab) == 1:
-        key, (init, step) = tab[0]
-        env = {phi_of(se, init_l[0], key): "T", init_l[1]: "n"}
-        i0 = strip(init)
-        good = i0[2][0][:2] == ("int", 0) and N(i0[2][1], {}) == size and N(step, env) == ("upd", S("T"), S("n"), S("n"))
-        tkey = key
-    rep.check(good, rule, fn, "identity-table", "table = [0, 1, ..., size-1] (zero-filled, then table[n] = n for n in 1..size)", "the index table is not initialised to the identity over all cells", body.loc())
+    if init_l is not None:
+        ist = loop_state(se, init_l[0])
+        tab = [(k, v) for k, v in ist.items() if util.is_call(strip(v[0]), "std::vec::from_elem")]
+        if len(tab) == 1:
+            key, (init, step) = tab[0]
+            env = {phi_of(se, init_l[0], key): "T", init_l[1]: "n"}
+            i0 = strip(init)
+            good = i0[2][0][:2] == ("int", 0) and N(i0[2][1], {}) == size and N(step, env) == ("upd", S("T"), S("n"), S("n"))
+            tkey = key
+            table_init = phi_of(se, init_l[0], tkey)
+    else:
+        for bb_, info_ in se.term_info.items():
+            if info_.get("k") == "call" and info_["name"].endswith("::collect") and info_["dest"][0] == "local":
+                src = strip(info_["args"][0])
+                if src[0] == "agg" and src[2] == "std::ops::Range" and N(src[4][0], {}) == I(0) and N(src[4][1], {}) == size:
+                    out_ty = se.body.local_ty(info_["dest"][1])
+                    if out_ty is not None and out_ty.s.startswith("std::vec::Vec<u8"):
+                        good = True
+                        tkey = info_["dest"]
+                        table_init = info_["term"]
+    rep.check(good, rule, fn, "identity-table", "table = [0, 1, ..., size-1]", "the index table is not initialised to the identity over all cells", body.loc())
     if not good:
         return
     # ---- rounds
     rst = loop_state(se, rounds[0])
-    gst = loop_state(se, gap[0])
     seed = coords = table = None
     for key, (init, step) in rst.items():
         ph = phi_of(se, rounds[0], key)
         si = strip(init)
         if si == ("param", 4):
             seed = (key, ph, step)
-        elif util.is_call(si, "std::vec::from_elem"):
-            coords = (key, ph, init, step)
         elif key == tkey:
             table = (key, ph, init, step)
-    gtab = None
-    for key, (init, step) in gst.items():
-        if key == tkey:
-            gtab = (key, phi_of(se, gap[0], key), init, step)
-    if not (seed and coords and table and gtab):
-        rep.violation(rule, fn, "shape", "round state is not (seed, coordinates, table) with an inner gap-closing loop over the table", body.loc())
+        elif util.is_call(si, "std::vec::from_elem"):
+            coords = (key, ph, init, step)
+    if not (seed and coords and table):
+        rep.violation(rule, fn, "shape", "round state is not (seed, coordinates, table)", body.loc())
         return
-    env = {seed[1]: "seed", coords[1]: "C", table[1]: "T", gtab[1]: "Tg", rounds[1]: "r", gap[1]: "j"}
+    env = {seed[1]: "seed", coords[1]: "C", table[1]: "T", rounds[1]: "r"}
     cnt = ("sub", size, S("r"))
     pick = ("rem", S("seed"), cnt)
     got = {
         "seed": N(seed[2], env),
         "C": N(coords[3], env),
         "C0": N(strip(coords[2])[2][1], {}),
-        "Tg": N(gtab[3], env),
-        "Tg0": N(gtab[2], env),
         "T0": strip(table[2]),
-        "T": strip(table[3]),
-        "gap": tuple(N(x, env) for x in gap[2][4]),
     }
     want = {
         "seed": ("Div", S("seed"), cnt),
         "C": ("upd", S("C"), S("r"), ("idx", S("T"), pick)),
         "C0": ("param", 3),
-        "Tg": ("upd", S("Tg"), S("j"), ("idx", S("Tg"), comm(("add", S("j"), I(1))))),
-        "Tg0": S("T"),
-        "T0": phi_of(se, init_l[0], tkey),
-        "T": gtab[1],
-        "gap": (pick, ("sub", cnt, I(1))),
+        "T0": strip(table_init),
     }
+    shift = None
+    tstep = strip(table[3])
+    if gap is not None and tstep[0] == "phi" and tstep[2] == gap[0]:
+        gst = loop_state(se, gap[0])
+        if tkey in gst:
+            ginit, gs = gst[tkey]
+            env2 = dict(env)
+            env2[phi_of(se, gap[0], tkey)] = "Tg"
+            env2[gap[1]] = "j"
+            ok = (N(gs, env2) == ("upd", S("Tg"), S("j"), ("idx", S("Tg"), comm(("add", S("j"), I(1))))) and N(ginit, env2) == S("T")
+                  and tuple(N(x, env2) for x in gap[2][4]) == (pick, ("sub", cnt, I(1))))
+            if ok:
+                shift = ("shift", pick, cnt)
+    elif tstep[0] == "after" and util.is_call(tstep[1]) and tstep[1][1].endswith("::copy_within") and tstep[2] == 0 and tstep[3] == table[1]:
+        c = tstep[1]
+        r_ = strip(c[2][1])
+        if r_[0] == "agg" and r_[2] == "std::ops::Range":
+            lo, hi, dst = N(r_[4][0], env), N(r_[4][1], env), N(c[2][2], env)
+            if lo == comm(("add", pick, I(1))) and hi == cnt and dst == pick:
+                shift = ("shift", pick, cnt)
+    got["gap"] = shift
+    want["gap"] = ("shift", pick, cnt)
     bad = {k: got[k] for k in got if got[k] != want[k]}
-    rep.check(not bad, rule, fn, "draw-without-replacement", "per round r: pick = seed % (size - r); coordinates[r] = table[pick]; table[pick..] shifted left over the remaining size - r - 1 entries; seed /= (size - r)", "coordinate selection differs from the draw-without-replacement scheme: %s" % {k: (arith.show(v) if isinstance(v, tuple) and v and isinstance(v[0], str) and v[0] != "phi" else str(v)[:120]) for k, v in bad.items()}, body.loc())
+    rep.check(not bad, rule, fn, "draw-without-replacement", "per round r: pick = seed % (size - r); coordinates[r] = table[pick]; table[pick+1..size-r] moved one place down; seed /= (size - r)", "coordinate selection differs from the draw-without-replacement scheme: %s" % {k: (arith.show(v) if isinstance(v, tuple) and v and isinstance(v[0], str) and v[0] != "phi" else str(v)[:120]) for k, v in bad.items()}, body.loc())
     # every round is unconditional: no extra exits from the rounds loop
     loop = set()
     for e in cfg.back_edges(body):
